@@ -423,11 +423,20 @@ def gen_formula(rng: random.Random, u: dict, *, rich: bool = True, structured_p:
         atoms.append(a)
         return a
 
+    parts_done = [0]
+
+    def atom_or_shared() -> str:
+        # later parts of a structured formula often reuse a factor of an earlier part (it is then evaluated / encoded once)
+        if parts_done[0] > 0 and atoms and rng.random() < 0.4:
+            return rng.choice(atoms[: max(1, len(atoms))])["expr"]
+        return atom()["expr"]
+
     def part(nmax: int) -> str:
         terms = []
         for _ in range(rng.randint(1, nmax)):
             deg = core.weighted(rng, [(1, 6), (2, 3), (3, 1)])
-            fs = [atom()["expr"] for _ in range(deg)]
+            fs = list(dict.fromkeys(atom_or_shared() for _ in range(deg)))
+            deg = len(fs)
             op = ":" if rng.random() < 0.7 or deg == 1 else "*"
             t = op.join(fs)
             if op == ":" and rng.random() < 0.12:
@@ -439,6 +448,7 @@ def gen_formula(rng: random.Random, u: dict, *, rich: bool = True, structured_p:
             s += " - 1"
         elif r < 0.18:
             s = "0 + " + s
+        parts_done[0] += 1
         return s
 
     def paired() -> str:
